@@ -872,6 +872,19 @@ def canon_access(e, al=None):
         x = {k: (rw(v) if k not in ('t', 'ot') else v) for k, v in x.items()}
         if x.get('k') == 'UnaryOperator' and x.get('op') == '*':
             inner = strip(x.get('e'))
+            # `*((p + i) - k)` / `*(p + i + j)`: one pointer term and the rest as the index
+            def is_ptr(y):
+                y = strip(y)
+                return isinstance(y, dict) and bool((y.get('t') or {}).get('p') or (y.get('t') or {}).get('arr')) and y.get('k') != 'BinaryOperator'
+            if isinstance(inner, dict) and inner.get('k') == 'BinaryOperator' and inner.get('op') in ('+', '-') and not is_ptr(inner.get('r')) \
+                    and isinstance(strip(inner['l']), dict) and strip(inner['l']).get('k') == 'BinaryOperator' and strip(inner['l']).get('op') == '+':
+                l2 = strip(inner['l'])
+                for p_, i_ in ((l2['l'], l2['r']), (l2['r'], l2['l'])):
+                    if is_ptr(p_) and not is_ptr(i_):
+                        idx = {'k': 'BinaryOperator', 'op': inner['op'], 'l': i_, 'r': inner['r'], 't': (strip(i_).get('t') or {})}
+                        return {'k': 'ArraySubscriptExpr', 'b': strip(p_), 'i': idx, 't': x.get('t'), 'ln': x.get('ln')}
+            if isinstance(inner, dict) and (inner.get('t') or {}).get('p') and inner.get('k') in ('DeclRefExpr', 'MemberExpr'):
+                return {'k': 'ArraySubscriptExpr', 'b': inner, 'i': {'k': 'IntegerLiteral', 'c': 0, 't': {'s': 'int', 'w': 32}}, 't': x.get('t'), 'ln': x.get('ln')}
             if isinstance(inner, dict) and inner.get('k') == 'BinaryOperator' and inner.get('op') == '+':
                 l, r = strip(inner['l']), strip(inner['r'])
                 lp = (l.get('t') or {}).get('p') or (l.get('t') or {}).get('arr') or l.get('k') == 'ArraySubscriptExpr'
